@@ -29,6 +29,7 @@ PROPS = {
         "technique": "property-based differential testing vs reference model; exhaustive small-scope enumeration + rapid random cases",
         "assumptions": HIST_ASSUME,
         "parts": {
+            "selfref": {"bin": "verifh", "run": "TestSelfRef", "checks": {"quick": 1500, "thorough": 200000}, "shards": {"quick": 1, "thorough": 8}},
             "cube": {"bin": "verifh", "run": "TestC09Cube", "kind": "plain", "shards": {"quick": 8, "thorough": 16}},
             "rand": {"bin": "verifh", "run": "TestC09Rand", "checks": {"quick": 2000, "thorough": 2000000}, "shards": {"quick": 2, "thorough": 16}},
             "hist": {"bin": "verifh", "run": "TestC09Hist", "checks": {"quick": 300, "thorough": 240000}, "shards": {"quick": 2, "thorough": 16}},
